@@ -582,6 +582,37 @@ func (e *Engine) stdStub(full string, c *ast.CallExpr, recv *Value, args []Value
 			e.assume(st.pc, implies(eq(sx("i_tid", res[1].T), "0"), e.lt(e.izero(), res[0].T)))
 		}
 		return res, true
+	case "path.Join", "path/filepath.Join":
+		// a deterministic function of its elements (the variadic slice that carries them has no identity)
+		if len(c.Args) > 0 && !c.Ellipsis.IsValid() && len(args) == 1 {
+			if sl, ok := types.Unalias(args[0].Typ).Underlying().(*types.Slice); ok {
+				note(full + ": opaque deterministic function of its elements (no heap effect)")
+				hn := elemHeapName(sl.Elem())
+				srt := e.arrSort(e.arrSort(e.sortOf(sl.Elem())))
+				h := e.heapGet(st, hn, srt)
+				var ts, ss []string
+				for i := range c.Args {
+					if e.spec > 0 {
+						// in a specification no slice is allocated for the variadic arguments: take the expressions themselves
+						ts = append(ts, e.coerce(e.ev(c.Args[i], st), sl.Elem(), st).T)
+					} else {
+						ts = append(ts, sx("select", sx("select", h, sx("l_ref", args[0].T)), e.add(sx("l_off", args[0].T), e.ilit(fmt.Sprint(i)))))
+					}
+					ss = append(ss, e.sortOf(sl.Elem()))
+				}
+				name := fmt.Sprintf("uf_%s_%d", mangle(full), len(ts))
+				e.declareFun(name, ss, e.sortOf(sig.Results().At(0).Type()))
+				tm := sx(name, ts...)
+				if e.bound == 0 {
+					e.assume("true", e.rangeFact(tm, sig.Results().At(0).Type()))
+				}
+				return []Value{{tm, sig.Results().At(0).Type()}}, true
+			}
+		}
+	case "path.IsAbs":
+		note(full + `: "reports whether the path is absolute" - exactly: it begins with a slash`)
+		arr, off, ln := e.bytesOf(st, args[0])
+		return []Value{{and(e.lt(e.izero(), ln), eq(sx("select", arr, off), "47")), types.Typ[types.Bool]}}, true
 	case "path.Ext", "path/filepath.Ext":
 		note(full + `: "the suffix beginning at the final dot in the final slash-separated element of path; it is empty if there is no dot" - a suffix of the argument`)
 		res := e.pureUF(full, sig, recv, args, st)
